@@ -282,6 +282,143 @@ func (g *descGen) hostile() []*Desc {
 	return out
 }
 
+// capitalised words: protogen keeps an underscore that is followed by an upper-case letter or a digit, so
+// these words joined by "_" stay underscored Go names
+var capWords = []string{"Node", "Stats", "Get", "Item", "Store", "Watch", "A", "B", "C", "V2", "X9", "Foo", "Bar", "Baz", "Put", "List", "HTTP", "Z"}
+
+// shared method names (several services of one file / package declare the same method)
+var sharedMethods = []string{"Ping", "Fetch", "Observe", "Enumerate", "put", "get_all", "Sync_Up"}
+
+// split-point families: several (service, method) pairs of one Go package whose Go names, joined by a
+// single underscore, are the same string (Node_Stats.Get / Node.Stats_Get).  The `_` -> `__` doubling
+// in the stream type names is the only thing that keeps their identifiers apart and the service full
+// name the only thing that keeps their rpc names apart; the generator accepts every one of them, so
+// each must type-check, register and round-trip (none is in a class of CollisionFree's complement).
+func (g *descGen) splitPoints(nrand int) []*Desc {
+	var out []*Desc
+	add := func(tag string, svcs ...Service) *Desc {
+		d := g.simple(tag, svcs...)
+		out = append(out, d)
+		return d
+	}
+	for _, sh := range [][2]bool{{false, false}, {false, true}, {true, false}, {true, true}} {
+		add("near-miss:split-point", Service{Name: "Node_Stats", Methods: []Method{mth("Get", sh[0], sh[1])}},
+			Service{Name: "Node", Methods: []Method{mth("Stats_Get", sh[0], sh[1])}})
+	}
+	add("near-miss:split-point", Service{Name: "Item_Store", Methods: []Method{mth("Watch", false, true), mth("Put", false, false)}},
+		Service{Name: "Item", Methods: []Method{mth("Store_Watch", true, true), mth("Put", true, false)}})
+	add("near-miss:split-point", Service{Name: "A_B_C", Methods: []Method{mth("D", true, true)}},
+		Service{Name: "A_B", Methods: []Method{mth("C_D", true, true)}},
+		Service{Name: "A", Methods: []Method{mth("B_C_D", true, true), mth("B_C", false, true), mth("B", false, false)}})
+	add("near-miss:split-point", Service{Name: "Foo_Bar", Methods: append(allShapes(), mth("Baz_Unary", false, false))},
+		Service{Name: "Foo", Methods: []Method{mth("Bar_Unary", false, false), mth("Bar_Down", false, true), mth("Bar_Up", true, false), mth("Bar_Bidi", true, true)}},
+		Service{Name: "Foo_Bar_Baz", Methods: allShapes()})
+	// the doubled spelling of one pair is the plain spelling of another
+	add("near-miss:split-point", Service{Name: "X__Y", Methods: []Method{mth("Z", true, true)}}, Service{Name: "X_Y", Methods: []Method{mth("Z", true, true)}},
+		Service{Name: "X", Methods: []Method{mth("Y_Z", true, true), mth("Y__Z", true, true)}})
+	// the two services in two files of one Go package (same / different proto package)
+	for _, pkg2 := range []string{"pkg", "other.pkg"} {
+		d := g.simple("near-miss:split-point", Service{Name: "Node_Stats", Methods: []Method{mth("Get", true, true), mth("Ping", false, false)}})
+		d.Files = append(d.Files, File{Path: "second.proto", Pkg: pkg2, Messages: []string{"Req2", "Resp2"},
+			Services: []Service{{Name: "Node", Methods: []Method{{Name: "Stats_Get", CS: true, SS: true, In: "Req2", Out: "Resp2"}, {Name: "Ping", In: "Req2", Out: "Resp2"}}}}})
+		out = append(out, d)
+	}
+	// random: k words, 2..3 different split points, random shapes and options, sometimes spread over files
+	r := g.r
+	for n := 0; n < nrand; n++ {
+		k := 3 + r.Intn(3)
+		var ws []string
+		for i := 0; i < k; i++ {
+			ws = append(ws, capWords[r.Intn(len(capWords))])
+		}
+		cuts := r.Perm(k - 1)[:2+r.Intn(min(2, k-2))]
+		d := &Desc{ID: g.id(), Tag: "near-miss:split-point-random"}
+		g.options(d)
+		pkg := protoPkgs[r.Intn(len(protoPkgs))]
+		spread := r.Intn(3) == 0
+		d.Files = []File{{Path: fmt.Sprintf("sp%d_0.proto", d.ID), Pkg: pkg, Messages: []string{"MsgIn0", "MsgOut0"}}}
+		seen := map[string]bool{}
+		for ci, c := range cuts {
+			s := Service{Name: strings.Join(ws[:c+1], "_")}
+			if seen[s.Name] {
+				continue
+			}
+			seen[s.Name] = true
+			fi := 0
+			if spread && ci > 0 {
+				fi = len(d.Files)
+				f := File{Path: fmt.Sprintf("sp%d_%d.proto", d.ID, fi), Pkg: pkg, Messages: []string{fmt.Sprintf("MsgIn%d", fi), fmt.Sprintf("MsgOut%d", fi)}}
+				if r.Intn(2) == 0 {
+					f.Pkg = protoPkgs[r.Intn(len(protoPkgs))]
+				}
+				d.Files = append(d.Files, f)
+			}
+			f := &d.Files[fi]
+			s.Methods = append(s.Methods, Method{Name: strings.Join(ws[c+1:], "_"), CS: r.Intn(2) == 0, SS: r.Intn(2) == 0, In: f.Messages[0], Out: f.Messages[1]})
+			for _, extra := range sharedMethods[:r.Intn(3)] {
+				s.Methods = append(s.Methods, Method{Name: extra, CS: r.Intn(2) == 0, SS: r.Intn(2) == 0, In: f.Messages[0], Out: f.Messages[1]})
+			}
+			f.Services = append(f.Services, s)
+		}
+		out = append(out, d)
+	}
+	return out
+}
+
+// shared-method families: several services of one file (and of several files of one package) declare
+// the same method names, in the same and in different shapes.  Every service has its own full name, so
+// every method has its own rpc name; registered on ONE mux each client must reach its own service.
+func (g *descGen) sharedMethodFamilies(nrand int) []*Desc {
+	var out []*Desc
+	d := g.simple("hostile:shared-methods",
+		Service{Name: "Alpha", Methods: []Method{mth("Ping", false, false), mth("Watch", false, true)}},
+		Service{Name: "Beta", Methods: []Method{mth("Ping", false, false), mth("Watch", false, true), mth("Push", true, false)}},
+		Service{Name: "Gamma", Methods: []Method{mth("Watch", true, true), mth("Push", true, false), mth("Ping", false, false)}})
+	d.Files[0].Pkg = "demo.nested"
+	out = append(out, d)
+	d = g.simple("hostile:shared-methods", Service{Name: "First", Methods: allShapes()}, Service{Name: "Second", Methods: allShapes()})
+	d.Files[0].Pkg = ""
+	d.Files = append(d.Files, File{Path: "more.proto", Pkg: "pkg", Messages: []string{"Req2", "Resp2"}, Services: []Service{
+		{Name: "Third", Methods: []Method{{Name: "Unary", In: "Req2", Out: "Resp2"}, {Name: "Bidi", CS: true, SS: true, In: "Req2", Out: "Resp2"}}},
+		{Name: "Fourth", Methods: []Method{{Name: "Bidi", CS: true, SS: true, In: "Req2", Out: "Req2"}, {Name: "Unary", In: "Resp2", Out: "Resp2"}}}}})
+	out = append(out, d)
+	// a service whose name is a prefix / suffix of another's, same methods
+	out = append(out, g.simple("hostile:shared-methods", Service{Name: "Svc", Methods: allShapes()}, Service{Name: "SvcV2", Methods: allShapes()},
+		Service{Name: "Svc_V2", Methods: allShapes()}, Service{Name: "V2Svc", Methods: []Method{mth("Unary", true, true)}}))
+	r := g.r
+	for n := 0; n < nrand; n++ {
+		d := &Desc{ID: g.id(), Tag: "hostile:shared-methods-random"}
+		g.options(d)
+		nfiles := 1 + r.Intn(2)
+		pkg := protoPkgs[r.Intn(len(protoPkgs))]
+		used := map[string]bool{}
+		for fi := 0; fi < nfiles; fi++ {
+			f := File{Path: fmt.Sprintf("sm%d_%d.proto", d.ID, fi), Pkg: pkg, Messages: []string{fmt.Sprintf("MsgIn%d", fi), fmt.Sprintf("MsgOut%d", fi)}}
+			if fi > 0 && r.Intn(2) == 0 {
+				f.Pkg = protoPkgs[r.Intn(len(protoPkgs))]
+			}
+			for si, ns := 0, 2+r.Intn(3); si < ns; si++ {
+				name := capWords[r.Intn(len(capWords))]
+				if r.Intn(2) == 0 {
+					name += "_" + capWords[r.Intn(len(capWords))]
+				}
+				if used[name] {
+					continue
+				}
+				used[name] = true
+				s := Service{Name: name}
+				for _, mi := range r.Perm(len(sharedMethods))[:1+r.Intn(4)] {
+					s.Methods = append(s.Methods, Method{Name: sharedMethods[mi], CS: r.Intn(2) == 0, SS: r.Intn(2) == 0, In: f.Messages[0], Out: f.Messages[1]})
+				}
+				f.Services = append(f.Services, s)
+			}
+			d.Files = append(d.Files, f)
+		}
+		out = append(out, d)
+	}
+	return out
+}
+
 // every shape × protolib × json as single-method services
 func (g *descGen) matrix() []*Desc {
 	var out []*Desc
